@@ -5,6 +5,7 @@ import (
 	"fmt"
 	"os"
 	"sort"
+	"sync"
 
 	"github.com/openziti/storage/boltz"
 	"go.etcd.io/bbolt"
@@ -191,6 +192,19 @@ func siblingScenario(c *core.Ctx, idx int, prop string) {
 	has := func(tx *bbolt.Tx, id string) (parent, a, b bool) {
 		return stores["parent"].Store.IsEntityPresent(tx, id), bpath(tx, "stores", "nodes", id, "ka") != nil, bpath(tx, "stores", "nodes", id, "kb") != nil
 	}
+	// C08: delete events per store (sync listeners: delivered by the time the transaction function has returned)
+	var evMu sync.Mutex
+	delEvents := map[string]int{}
+	if prop == "C08" {
+		for name, st := range stores {
+			name := name
+			st.Store.AddEntityIdListener(func(string) {
+				evMu.Lock()
+				delEvents[name]++
+				evMu.Unlock()
+			}, boltz.EntityDeleted)
+		}
+	}
 	tolerated := 0
 	for step := 0; step < 40; step++ {
 		id := core.Pick(r, ids)
@@ -214,6 +228,9 @@ func siblingScenario(c *core.Ctx, idx int, prop string) {
 			via = "parent" // deleting a parent-only id through a child store is left open
 		}
 		var newEnt *schema.Ent
+		evMu.Lock()
+		delEvents = map[string]int{}
+		evMu.Unlock()
 		keptAfterRefusal := false
 		opErr := db.Update(nil, func(ctx boltz.MutateContext) error {
 			switch kind {
@@ -321,6 +338,17 @@ func siblingScenario(c *core.Ctx, idx int, prop string) {
 				continue
 			}
 			shape := fmt.Sprintf("parent%s%s", map[bool]string{true: "+A"}[hadA], map[bool]string{true: "+B"}[hadB])
+			if prop == "C08" {
+				// one delete event on the parent store and one on every child store that held data for the entity
+				evMu.Lock()
+				got := fmt.Sprintf("parent=%d childA=%d childB=%d", delEvents["parent"], delEvents["childA"], delEvents["childB"])
+				wrong := delEvents["parent"] != 1 || delEvents["childA"] != map[bool]int{true: 1}[hadA] || (hadB && delEvents["childB"] != 1) || (!hadB && !kidB.Extended && delEvents["childB"] != 0)
+				evMu.Unlock()
+				c.Count("sibling_delete_events_checked", 1)
+				if wrong {
+					c.Violationf("C08 siblings: delete events differ from the parts the entity had ("+shape+" deleted through "+via+")", info, "deliveries %s (second child store extended=%v)", got, kidB.Extended)
+				}
+			}
 			c.Count("sibling_deletes_scanned", 1)
 			c.Cover("sibling_delete", shape+" through "+via)
 			c.Nontrivial("sibling", shape, via, kidB.Extended)
